@@ -28,6 +28,7 @@ META = {
 META["claim"] += " " + 'Also: Basic credentials of 58+ bytes, redirects whose hops differ in the proxy decision, and the same decisions through WebSocketApp.run_forever().'
 META["claim"] += " " + 'Round 3b: IPv6 literal targets against CIDR / literal / name no_proxy lists; WebSocketApp with an environment proxy and the exemption passed as run_forever option.'
 META["claim"] += " " + 'Round 4: credentials whose base64 form needs + and /; no_proxy entries with a slash that are no IPv4 block, before and after a valid block, for every prefix length.'
+META["claim"] += " " + 'Round 5: IPv4 targets in their other legal spellings (127.1, 2130706433, 0x7f.0.0.1, 0177.0.0.1 ...) against CIDR lists; REQUEST_METHOD / ALL_PROXY in the environment.'
 
 LABELS = ["a", "b", "ab", "ba"]
 
